@@ -209,10 +209,17 @@ def run_parent(args):
     reach = collections.Counter()
     exhaustive = {}
     extra = {}
+    # many millions of digests: count distinct ones with a k-way merge of the (sorted) per-worker files instead of
+    # holding them in one set
+    big_merge = sum(len(d['_digests']) for d in parts) > 8 * 4_000_000
+    digest_blobs = []
     for doc in parts:
         evaluations += doc['evaluations']
         raw = doc['_digests']
-        digests.update(raw[i:i + 8] for i in range(0, len(raw), 8))
+        if big_merge:
+            digest_blobs.append(raw)
+        else:
+            digests.update(raw[i:i + 8] for i in range(0, len(raw), 8))
         clauses.update(doc['clauses'])
         for k, v in doc['hist'].items():
             hist[k].update(v)
@@ -239,6 +246,20 @@ def run_parent(args):
             else:
                 extra.setdefault(k, v)
 
+    n_distinct = len(digests)
+    if big_merge:
+        import heapq
+
+        def it(raw):
+            mv = memoryview(raw)
+            for i in range(0, len(raw), 8):
+                yield bytes(mv[i:i + 8])
+        prev = None
+        n_distinct = 0
+        for d in heapq.merge(*[it(r) for r in digest_blobs]):
+            if d != prev:
+                n_distinct += 1
+                prev = d
     if not args.replay:
         for name, n in sorted(reach.items()):
             if n == 0:
@@ -247,9 +268,9 @@ def run_parent(args):
             if clauses.get(cl, 0) == 0:
                 inconclusive.append('monitor clause never evaluated: %s' % cl)
         mins = getattr(mod, 'MIN_DISTINCT', {'quick': 50, 'thorough': 200})
-        if len(digests) < mins[args.tier]:
+        if n_distinct < mins[args.tier]:
             inconclusive.append('only %d distinct non-trivial cases (minimum %d)' % (
-                len(digests), mins[args.tier]))
+                n_distinct, mins[args.tier]))
 
     # ---- replay files + lines
     lines = []
@@ -293,7 +314,7 @@ def run_parent(args):
         level = getattr(mod, 'LEVEL', 'exploration')
         coverage = {
             'evaluations': evaluations,
-            'distinct_nontrivial': len(digests),
+            'distinct_nontrivial': n_distinct,
             'rule': getattr(mod, 'RULE', ''),
             'samples': [{'class': k, 'case': v} for k, v in samples.items()] or [],
             'exhaustive': bool(getattr(mod, 'EXHAUSTIVE_WHOLE', False)),
@@ -330,7 +351,7 @@ def run_parent(args):
         print(ln)
     print('%s tier=%s seed=%d verdict=%s evaluations=%d distinct=%d violations=%d wall=%.1fs' % (
         prop, args.tier, args.seed, {0: 'held', 1: 'VIOLATED', 2: 'INCONCLUSIVE'}[status],
-        evaluations, len(digests), violation_count, wall))
+        evaluations, n_distinct, violation_count, wall))
     return status
 
 
